@@ -630,7 +630,8 @@ impl CanonicalizeContext {
 			};
 		}
 
-		if ELEMENTS_WITH_FIXED_NUMBER_OF_CHILDREN.contains(element_name) {
+		// "mmultiscripts" and "mlongdiv" aren't in ELEMENTS_WITH_FIXED_NUMBER_OF_CHILDREN, but the number of children they can have is restricted
+		if ELEMENTS_WITH_FIXED_NUMBER_OF_CHILDREN.contains(element_name) || element_name == "mmultiscripts" || element_name == "mlongdiv" {
 			match element_name {
 				"munderover" | "msubsup" => if n_children != 3 {
 					bail!("{} should have 3 children:\n{}", element_name, mml_to_string(&mathml));
